@@ -77,6 +77,10 @@ func main() {
 		fmt.Print(dumpBodies(filepath.Join(*repo, "unmarshaler"), "Unmarshaler.unmarshal", "Unmarshaler.unmarshalCause", "Unmarshaler.resolveKind", "Unmarshaler.resolveDefinitionFromMessage", "Unmarshaler.Unmarshal", "tryConvertViaJSON", "tryConvertFieldValue"))
 		return
 	}
+	if os.Getenv("DUMPGOLITE") != "" {
+		fmt.Print(genGoLite(*repo))
+		return
+	}
 	p, err := load(*repo)
 	if err != nil {
 		fmt.Fprintln(os.Stderr, "srcgen:", err)
